@@ -177,34 +177,152 @@ Proof. intros Hk Hp. unfold att2name. rewrite split_us_render by assumption. ref
 (* ================================================================== *)
 (* 3. att2idx                                                          *)
 (* ================================================================== *)
-Lemma py_int_dd n : py_int (dd n) = PVal n.
+(* -- CPython's int() digit limit: which indices stay below it -- *)
+Local Arguments int_max_str_digits : simpl never.
+
+(* a decimal rendering never has more digits than the number has bits *)
+Lemma little_double_digits d :
+  (Decimal.nb_digits (Decimal.Little.double d) <= S (Decimal.nb_digits d))%nat /\
+  (Decimal.nb_digits (Decimal.Little.succ_double d) <= S (Decimal.nb_digits d))%nat.
 Proof.
-  unfold py_int. pose proof (dd_nonempty n) as NE.
-  destruct (dd n) as [|c s] eqn:E; [congruence|]. rewrite <- E.
-  rewrite all_chars_is_digit, dd_digits, N_of_str_dd. reflexivity.
+  induction d as [|d [I1 I2]|d [I1 I2]|d [I1 I2]|d [I1 I2]|d [I1 I2]|d [I1 I2]|d [I1 I2]|d [I1 I2]|d [I1 I2]|d [I1 I2]];
+    simpl; split; lia.
 Qed.
 
-Lemma ints_dd l : ints (map dd l) = Some (Some l).
-Proof. induction l as [|n l IH]; simpl; [reflexivity|]. rewrite py_int_dd, IH. reflexivity. Qed.
+Lemma to_little_uint_digits p : (Decimal.nb_digits (Pos.to_little_uint p) <= Pos.size_nat p)%nat.
+Proof.
+  induction p as [p IH|p IH|]; cbn [Pos.to_little_uint Pos.size_nat].
+  - pose proof (proj2 (little_double_digits (Pos.to_little_uint p))). lia.
+  - pose proof (proj1 (little_double_digits (Pos.to_little_uint p))). lia.
+  - simpl. lia.
+Qed.
+
+Lemma string_of_uint_length u : String.length (NilEmpty.string_of_uint u) = Decimal.nb_digits u.
+Proof. induction u; simpl; congruence. Qed.
+
+Lemma str_of_N_length_pos p : (String.length (str_of_N (Npos p)) <= Pos.size_nat p)%nat.
+Proof.
+  unfold str_of_N. rewrite NilZero_NilEmpty by apply to_uint_nonnil.
+  rewrite string_of_uint_length. cbn [N.to_uint]. unfold Pos.to_uint.
+  rewrite DecimalFacts.nb_digits_rev. apply to_little_uint_digits.
+Qed.
+
+Lemma size_nat_bound : forall p k, (Npos p < 2 ^ N.of_nat k)%N -> (Pos.size_nat p <= k)%nat.
+Proof.
+  induction p as [p IH|p IH|]; intros k H; (destruct k as [|k]; [simpl in H; lia|]);
+    cbn [Pos.size_nat]; try lia;
+    rewrite Nat2N.inj_succ, N.pow_succ_r' in H; apply le_n_S, IH;
+    set (X := (2 ^ N.of_nat k)%N) in *.
+  - change (N.pos p~1) with (2 * N.pos p + 1)%N in H. lia.
+  - change (N.pos p~0) with (2 * N.pos p)%N in H. lia.
+Qed.
+
+Lemma dd_length_le n k : (String.length (str_of_N n) <= k)%nat -> (2 <= k)%nat -> (String.length (dd n) <= k)%nat.
+Proof. intros H H2. unfold dd, fmt_d. rewrite pad_zeros_length. lia. Qed.
+
+Lemma int_max_ge_2 : (2 <= int_max_str_digits)%nat.
+Proof. apply Nat.leb_le. vm_compute. reflexivity. Qed.
+
+(* every index below 2^4300 is small (the decoder itself never goes beyond 2^20) *)
+Theorem small_idx_of_bits i : (i < 2 ^ 4300)%Z -> small_idx i.
+Proof.
+  intro H. unfold small_idx. apply dd_length_le; [|exact int_max_ge_2].
+  destruct i as [|p|p]; cbn [Z.to_N]; try (apply Nat.leb_le; vm_compute; reflexivity).
+  eapply Nat.le_trans; [apply str_of_N_length_pos|]. apply size_nat_bound.
+  replace (N.of_nat int_max_str_digits) with 4300%N by (vm_compute; reflexivity).
+  apply N2Z.inj_lt. rewrite N2Z.inj_pow. exact H.
+Qed.
+
+Corollary small_idxs_of_bits idxs : Forall (fun i => (i < 2 ^ 4300)%Z) idxs -> small_idxs idxs.
+Proof. unfold small_idxs. apply Forall_impl. exact small_idx_of_bits. Qed.
+
+Lemma small_or_huge i : small_idx i \/ huge_idx i.
+Proof. unfold small_idx, huge_idx. lia. Qed.
+
+Lemma small_not_huge i : small_idx i -> huge_idx i -> False.
+Proof. unfold small_idx, huge_idx. lia. Qed.
+
+(* -- int() on an index rendering -- *)
+Lemma py_int_dd n : (String.length (dd n) <= int_max_str_digits)%nat -> py_int (dd n) = PVal n.
+Proof.
+  intro H. unfold py_int. pose proof (dd_nonempty n) as NE.
+  destruct (dd n) as [|c s] eqn:E; [congruence|]. rewrite <- E in *.
+  rewrite all_chars_is_digit, dd_digits, N_of_str_dd.
+  rewrite (proj2 (Nat.ltb_ge _ _) H). reflexivity.
+Qed.
+
+Lemma py_int_dd_huge n : (int_max_str_digits < String.length (dd n))%nat -> py_int (dd n) = PValueError.
+Proof.
+  intro H. unfold py_int. pose proof (dd_nonempty n) as NE.
+  destruct (dd n) as [|c s] eqn:E; [congruence|]. rewrite <- E in *.
+  rewrite all_chars_is_digit, dd_digits.
+  rewrite (proj2 (Nat.ltb_lt _ _) H). reflexivity.
+Qed.
+
+Lemma ints_dd l : Forall (fun n => (String.length (dd n) <= int_max_str_digits)%nat) l ->
+  ints (map dd l) = Some (Some l).
+Proof.
+  induction 1 as [|n l Hn _ IH]; cbn [map ints]; [reflexivity|].
+  rewrite (py_int_dd _ Hn), IH. reflexivity.
+Qed.
+
+Lemma ints_dd_huge l : Exists (fun n => (int_max_str_digits < String.length (dd n))%nat) l ->
+  ints (map dd l) = Some None.
+Proof.
+  induction l as [|n l IH]; intro H; [inversion H|]. cbn [map ints].
+  destruct (Nat.le_gt_cases (String.length (dd n)) int_max_str_digits) as [Hs|Hh].
+  - rewrite (py_int_dd _ Hs). inversion H as [? ? Hh|? ? Ht]; subst; [lia|].
+    rewrite (IH Ht). reflexivity.
+  - rewrite (py_int_dd_huge _ Hh). reflexivity.
+Qed.
+
+Lemma small_idxs_map idxs : small_idxs idxs ->
+  Forall (fun n => (String.length (dd n) <= int_max_str_digits)%nat) (map Z.to_N idxs).
+Proof. induction 1; cbn [map]; constructor; assumption. Qed.
+
+Lemma huge_idxs_map idxs : Exists huge_idx idxs ->
+  Exists (fun n => (int_max_str_digits < String.length (dd n))%nat) (map Z.to_N idxs).
+Proof. induction 1; cbn [map]; [left|right]; assumption. Qed.
 
 Theorem att2idx_plain key : no_us key = true -> att2idx key = IdxInt 0.
 Proof. intro H. unfold att2idx. rewrite split_us_no_us by assumption. reflexivity. Qed.
 
-Theorem att2idx_render1 key i : no_us key = true -> (0 < i)%Z ->
+Theorem att2idx_render1 key i : no_us key = true -> (0 < i)%Z -> small_idx i ->
   att2idx (render_name key [i]) = IdxInt (Z.to_N i).
 Proof.
-  intros Hk Hi. unfold att2idx. rewrite split_us_render by (auto; repeat constructor; assumption).
-  cbn [map]. rewrite py_int_dd. reflexivity.
+  intros Hk Hi Hs. unfold att2idx. rewrite split_us_render by (auto; repeat constructor; assumption).
+  cbn [map]. rewrite (py_int_dd _ Hs). reflexivity.
 Qed.
 
-Theorem att2idx_renderN key idxs : no_us key = true -> (2 <= List.length idxs)%nat -> positive_idxs idxs ->
+Theorem att2idx_renderN key idxs : no_us key = true -> (2 <= List.length idxs)%nat ->
+  positive_idxs idxs -> small_idxs idxs ->
   att2idx (render_name key idxs) = IdxTuple (map Z.to_N idxs).
 Proof.
-  intros Hk Hl Hp. unfold att2idx. rewrite split_us_render by assumption.
-  rewrite <- (map_map Z.to_N dd).
+  intros Hk Hl Hp Hs. unfold att2idx. rewrite split_us_render by assumption.
+  rewrite <- (map_map Z.to_N dd). apply small_idxs_map in Hs.
   destruct idxs as [|a [|b r]]; simpl in Hl; try lia.
-  cbn [map]. change (dd (Z.to_N a) :: dd (Z.to_N b) :: map dd (map Z.to_N r)) with (map dd (Z.to_N a :: Z.to_N b :: map Z.to_N r)).
-  rewrite ints_dd. reflexivity.
+  cbn [map] in *. change (dd (Z.to_N a) :: dd (Z.to_N b) :: map dd (map Z.to_N r)) with (map dd (Z.to_N a :: Z.to_N b :: map Z.to_N r)).
+  rewrite (ints_dd _ Hs). reflexivity.
+Qed.
+
+(* the CPython behaviour the limit documents: an index whose rendering has more than 4300 digits makes
+   int() raise ValueError, which att2idx turns into 0 -- at any nesting depth *)
+Theorem att2idx_render_huge key idxs : no_us key = true -> positive_idxs idxs -> Exists huge_idx idxs ->
+  att2idx (render_name key idxs) = IdxInt 0.
+Proof.
+  intros Hk Hp Hh. unfold att2idx. rewrite split_us_render by assumption.
+  rewrite <- (map_map Z.to_N dd). apply huge_idxs_map in Hh.
+  destruct idxs as [|a [|b r]]; [inversion Hh| |].
+  - cbn [map] in *. inversion Hh as [? ? Ha|? ? Ht]; subst; [|inversion Ht].
+    rewrite (py_int_dd_huge _ Ha). reflexivity.
+  - cbn [map] in *. change (dd (Z.to_N a) :: dd (Z.to_N b) :: map dd (map Z.to_N r)) with (map dd (Z.to_N a :: Z.to_N b :: map Z.to_N r)).
+    rewrite (ints_dd_huge _ Hh). reflexivity.
+Qed.
+
+Corollary att2idx_render1_huge key i : no_us key = true -> (0 < i)%Z -> huge_idx i ->
+  att2idx (render_name key [i]) = IdxInt 0.
+Proof.
+  intros Hk Hi Hh. apply att2idx_render_huge; [assumption|repeat constructor; assumption|left; assumption].
 Qed.
 
 (* ================================================================== *)
@@ -792,22 +910,28 @@ End Coeff.
 (* ================================================================== *)
 (* C19 summary                                                         *)
 (* ================================================================== *)
-Theorem att2idx_render key idxs : no_us key = true -> positive_idxs idxs ->
+Theorem att2idx_render key idxs : no_us key = true -> positive_idxs idxs -> small_idxs idxs ->
   att2idx (render_name key idxs) = expected_idx idxs.
 Proof.
-  intros Hk Hp. destruct idxs as [|a [|b r]].
+  intros Hk Hp Hs. destruct idxs as [|a [|b r]].
   - apply att2idx_plain. assumption.
-  - inversion Hp; subst. apply att2idx_render1; assumption.
+  - inversion Hp; inversion Hs; subst. apply att2idx_render1; assumption.
   - apply att2idx_renderN; try assumption. simpl. lia.
 Qed.
 
+(* the same with the bound stated on the indices themselves *)
+Corollary att2idx_render_bits key idxs : no_us key = true -> positive_idxs idxs ->
+  Forall (fun i => (i < 2 ^ 4300)%Z) idxs ->
+  att2idx (render_name key idxs) = expected_idx idxs.
+Proof. intros Hk Hp Hb. apply att2idx_render; try assumption. apply small_idxs_of_bits. assumption. Qed.
+
 Theorem C19_all_helpers T : desc_unambiguous T = true ->
-  forall key idxs d, find_field T key = Some d -> no_us key = true -> positive_idxs idxs ->
+  forall key idxs d, find_field T key = Some d -> no_us key = true -> positive_idxs idxs -> small_idxs idxs ->
     datadesc T (render_name key idxs) = Ok (df_desc d) /\
     att2name (render_name key idxs) = key /\
     att2idx (render_name key idxs) = expected_idx idxs.
 Proof.
-  intros Hc key idxs d Hd Hk Hp. split; [|split].
+  intros Hc key idxs d Hd Hk Hp Hs. split; [|split].
   - apply desc_unambiguous_sound; assumption.
   - apply att2name_render; assumption.
   - apply att2idx_render; assumption.
@@ -833,6 +957,19 @@ Example att2idx_3digit : att2idx (render_name "IDF039" [2; 123]%Z) = IdxTuple [2
                          /\ render_name "IDF039" [2; 123]%Z = "IDF039_02_123".
 Proof. split; reflexivity. Qed.
 
+(* the limit is exactly CPython's: 10^4300 - 1 (4300 nines) still converts, 10^4300 (4301 digits) does not *)
+Lemma digit_limit_boundary : small_idx (10 ^ 4300 - 1)%Z /\ huge_idx (10 ^ 4300)%Z.
+Proof.
+  split.
+  - unfold small_idx. apply Nat.leb_le. vm_compute. reflexivity.
+  - unfold huge_idx. apply Nat.ltb_lt. vm_compute. reflexivity.
+Qed.
+
+Example att2idx_huge_witness : att2idx (render_name "DF404" [10 ^ 4300]%Z) = IdxInt 0.
+Proof.
+  apply att2idx_render1_huge; [reflexivity|apply Z.pow_pos_nonneg; lia|exact (proj2 digit_limit_boundary)].
+Qed.
+
 (* ================================================================== *)
 Print Assumptions fmt_d_digits.
 Print Assumptions fmt_d_nonempty.
@@ -846,6 +983,12 @@ Print Assumptions att2idx_render1.
 Print Assumptions att2idx_renderN.
 Print Assumptions att2idx_plain.
 Print Assumptions att2idx_render.
+Print Assumptions att2idx_render_bits.
+Print Assumptions small_idx_of_bits.
+Print Assumptions att2idx_render_huge.
+Print Assumptions att2idx_render1_huge.
+Print Assumptions digit_limit_boundary.
+Print Assumptions att2idx_huge_witness.
 Print Assumptions rsplit1_render.
 Print Assumptions datadesc_longest.
 Print Assumptions datadesc_render.
